@@ -49,7 +49,7 @@ BODY_CLASSES = [
     "errors_and_data", "errors_and_null_data", "errors_only", "errors_full_members", "errors_many",
     "empty_object", "unrelated_keys", "json_array", "json_number", "json_string", "json_true", "json_null",
     "empty_body", "html", "torn", "flipped_byte", "invalid_utf8", "bom_prefixed", "utf16", "data_scalar", "data_list",
-    "whitespace_padded", "errors_same_message", "data_empty_object", "data_false", "data_empty_and_empty_errors", "errors_null_probe", "errors_string_probe",
+    "whitespace_padded", "errors_same_message", "data_empty_object", "data_false", "data_empty_and_empty_errors", "empty_errors_null_data", "errors_null_probe", "errors_string_probe",
 ]
 QUICK_STATUSES = [200, 201, 204, 299, 100, 199, 300, 301, 304, 400, 401, 404, 429, 500, 502, 503, 599]
 VIAS = ["execute", "get_item", "list_items", "ping", "create_item", "search_now"]
@@ -94,6 +94,8 @@ def make_body(cls: str, data: Any, knob: int) -> bytes:
         return J({"data": [False, 0, "", []][knob % 4]})
     if cls == "data_empty_and_empty_errors":
         return J({"errors": [], "data": {}})
+    if cls == "empty_errors_null_data":
+        return J({"errors": [], "data": None})
     if cls == "empty_object":
         return b"{}"
     if cls == "unrelated_keys":
